@@ -230,6 +230,17 @@ func Run(run *core.Run, thorough bool) {
 			}
 		}
 	})
+	// (1b) real hash, mainnet-scale sizes: both sides of the 2^16 position boundary (the 256-position hash windows
+	// are numbered with more than one byte from there on), every position
+	giant := []int{65535, 65536, 65537, 65800, 70000}
+	if thorough {
+		giant = append(giant, 131071, 131073, 140000)
+	}
+	par(len(giant), func(i int) {
+		for _, r := range []int{1, 3} {
+			c.checkOne(r, uint64(giant[i]), seeds[0], sha256.Sum256, "real-hash/mainnet-scale")
+		}
+	})
 	realEvals := c.evals
 	// (2a) owned hash, full enumeration: every pivot x every position-bit pattern
 	full1 := 10 // one round: sizes 1..full1
